@@ -37,7 +37,7 @@ class Job:
                  bound=None, replay=False, fallback=None, config='slack', min_obl=1,
                  entry='harness', checks=None, slice_tag=None, nondet_static=False,
                  note='', assumptions=(), object_bits=None, instrument=(), weight=1,
-                 no_repo_inc=False, sliced=False, split=None, no_std_checks=False, frame_prop=None, stubs=()):
+                 no_repo_inc=False, sliced=False, split=None, no_std_checks=False, frame_prop=None, stubs=(), special=None):
         self.name = name
         self.props = list(props)
         self.engine = engine            # 'A' loop contracts, 'C' loop-free, 'B' bounded
@@ -71,6 +71,7 @@ class Job:
         self.no_repo_inc = no_repo_inc
         self.split = (engine == 'A') if split is None else split
         self.no_std_checks = no_std_checks
+        self.special = special               # python callable(repo) -> obligations (static-fact jobs)
         self.stubs = list(stubs)             # /verif-relative model/stub sources (cbmc only, not linked into replays)
         self.frame_prop = frame_prop         # property an 'assigns' obligation belongs to (default C01)
         self.sliced = sliced                 # run once per property with only that property's clauses
@@ -217,6 +218,18 @@ def run_job(job, tier='quick', want_trace=False, keep=None, select=None):
        obligations: [ {id, desc, status, file, line, function, cls, trace?} ]
     """
     t0 = time.time()
+    if job.special is not None:
+        res = {'job': job.name, 'engine': job.engine, 'state': 'ok', 'obligations': [], 'messages': [],
+               'cmds': ['python: %s.%s(%s)' % (job.special.__module__, job.special.__name__, REPO)],
+               'solver_s': 0.0, 'overlay': {}}
+        try:
+            obs = job.special(REPO)
+            res['obligations'] = [o for o in obs if select is None or select(o)]
+        except Exception as e:  # noqa
+            res['state'] = 'error'
+            res['messages'].append('special job failed: %r' % e)
+        res['wall_s'] = round(time.time() - t0, 2)
+        return res
     scratch = tempfile.mkdtemp(prefix='verif-' + job.name + '-', dir=os.environ.get('TMPDIR', '/tmp'))
     res = {'job': job.name, 'engine': job.engine, 'state': 'error', 'obligations': [],
            'messages': [], 'cmds': [], 'solver_s': 0.0, 'overlay': {}}
